@@ -1,63 +1,5 @@
-(* C06 - proofs about Model/Transport.v and about the generated table Gen/MsgGate.v. *)
-From Coq Require Import String Ascii.
-From AV Require Import Base.Prelude Model.Transport Gen.MsgGate.
-
-(* ====================================================================================================== *)
-(* Part 1: the generated table.  Each check is a forallb over the whole finite table, evaluated by the
-   kernel VM, and lifted to a universally quantified statement with the bounds spelled out. *)
-
-Lemma in_zrange n z : 0 <= z < Z.of_nat n -> In z (zrange n).
-Proof.
-  intros H. unfold zrange. apply in_map_iff. exists (Z.to_nat z). split.
-  - lia.
-  - apply in_seq. lia.
-Qed.
-
-Lemma in_bools (b : bool) : In b [false; true].
-Proof. destruct b; simpl; auto. Qed.
-
-Lemma in_all_cells sv ph sk va :
-  0 <= ph < 9 -> 0 <= va < 4 -> In (sv, ph, sk, va) all_cells.
-Proof.
-  intros Hp Hv. unfold all_cells.
-  repeat (apply in_prod); try apply in_bools; apply in_zrange; simpl; lia.
-Qed.
-
-Lemma row_all_spec p : forall lw l t0 i,
-  row_all p t0 lw l = true -> (i < List.length lw)%nat -> (i < List.length l)%nat ->
-  p (t0 + Z.of_nat i) (nth i lw VX) (nth i l VX) = true.
-Proof.
-  induction lw as [|w rw IH]; intros l t0 i H Hi1 Hi2; [simpl in Hi1; lia|].
-  destruct l as [|v r]; [simpl in Hi2; lia|].
-  simpl in H. apply andb_true_iff in H as [H1 H2].
-  destruct i as [|i].
-  - simpl. replace (t0 + 0) with t0 by lia. exact H1.
-  - simpl nth. replace (t0 + Z.of_nat (S i)) with ((t0 + 1) + Z.of_nat i) by lia.
-    apply IH; [exact H2 | simpl in Hi1; lia | simpl in Hi2; lia].
-Qed.
-
-Lemma table_all_spec rowf p :
-  table_all rowf p = true ->
-  forall sv ph sk va t, 0 <= ph < 9 -> 0 <= va < 4 -> 0 <= t < 256 ->
-    p sv ph sk va t (lookup rowf sv ph sk 0 t) (lookup rowf sv ph sk va t) = true.
-Proof.
-  intros H sv ph sk va t Hp Hv Ht. unfold table_all in H. rewrite forallb_forall in H.
-  specialize (H _ (in_all_cells sv ph sk va Hp Hv)). cbv beta iota in H.
-  apply andb_true_iff in H as [H H3]. apply andb_true_iff in H as [H1 H2].
-  apply Nat.eqb_eq in H1, H2. unfold NTYPES in H1, H2.
-  unfold lookup. fold (row_of rowf sv ph sk 0). fold (row_of rowf sv ph sk va).
-  pose proof (row_all_spec _ _ _ 0 (Z.to_nat t) H3) as Hs.
-  rewrite Z2Nat.id in Hs by lia. simpl in Hs. apply Hs; lia.
-Qed.
-
-Lemma tab_total : table_all gate_row p_total = true. Proof. vm_compute. reflexivity. Qed.
-Lemma tab_prekex : table_all gate_row p_prekex = true. Proof. vm_compute. reflexivity. Qed.
-Lemma tab_preauth : table_all gate_row p_preauth = true. Proof. vm_compute. reflexivity. Qed.
-Lemma tab_role : table_all gate_row p_role = true. Proof. vm_compute. reflexivity. Qed.
-Lemma tab_strict : table_all gate_row p_strict = true. Proof. vm_compute. reflexivity. Qed.
-Lemma tab_postauth : table_all gate_row p_postauth = true. Proof. vm_compute. reflexivity. Qed.
-Lemma tab_unassigned : table_all gate_row p_unassigned = true. Proof. vm_compute. reflexivity. Qed.
-Lemma tab_malformed : table_all gate_row p_malformed = true. Proof. vm_compute. reflexivity. Qed.
+(* C06 - proofs about the hand model Model/Transport.v (independent of the generated table). *)
+From AV Require Import Base.Prelude Model.Transport.
 
 (* ====================================================================================================== *)
 (* Part 2: the hand model *)
@@ -133,13 +75,13 @@ Definition inv_rseq (s : st) : Prop :=
 Lemma run_tasks_closed_id : forall n c, closed c = true -> run_tasks n c = c.
 Proof. destruct n; intros c H; simpl; [reflexivity|]. rewrite H. reflexivity. Qed.
 
-Lemma step_inv_rseq0 fixed s e : inv_rseq s -> inv_rseq (step fixed s e).
+Lemma step_inv_rseq0 fixed fixk s e : inv_rseq s -> inv_rseq (step fixed fixk s e).
 Proof.
   intros H. destruct e as [|t cls|]; cbn [step].
   - destruct (closed (cn s)) eqn:Ec; [exact H|]. exact H.
   - unfold recv.
     destruct (closed (cn s)) eqn:Ec; [exact H|].
-    set (c1 := dispatch fixed _ _ t cls).
+    set (c1 := dispatch fixed fixk _ _ t cls).
     destruct (closed c1) eqn:Ec1.
     + intros _ _ Hc. simpl in Hc. congruence.
     + unfold finish_recv.
@@ -154,19 +96,19 @@ Proof.
     + apply H; auto.
 Qed.
 
-Lemma step_inv_rseq fixed s e : inv_rseq s -> inv_rseq (step fixed (begin_step s) e).
+Lemma step_inv_rseq fixed fixk s e : inv_rseq s -> inv_rseq (step fixed fixk (begin_step s) e).
 Proof. intros H. apply step_inv_rseq0. exact H. Qed.
 
-Lemma run_inv_rseq fixed : forall l s, inv_rseq s -> inv_rseq (run fixed s l).
+Lemma run_inv_rseq fixed fixk : forall l s, inv_rseq s -> inv_rseq (run fixed fixk s l).
 Proof.
   induction l as [|e r IH]; intros s H; simpl; [exact H|]. apply IH.
-  unfold step_booked. pose proof (step_inv_rseq fixed s e H) as H1.
-  destruct (note_all_frame (map fst (olog (cn (step fixed (begin_step s) e)))) (step fixed (begin_step s) e)) as (A & B & C & D).
+  unfold step_booked. pose proof (step_inv_rseq fixed fixk s e H) as H1.
+  destruct (note_all_frame (map fst (olog (cn (step fixed fixk (begin_step s) e)))) (step fixed fixk (begin_step s) e)) as (A & B & C & D).
   unfold inv_rseq in *. rewrite A, B, C. exact H1.
 Qed.
 
-Lemma recv_seq_reset_all_runs fixed server l :
-  let s := run fixed (init server) l in
+Lemma recv_seq_reset_all_runs fixed fixk server l :
+  let s := run fixed fixk (init server) l in
   last_recv s = 21 -> strict (cn s) = true -> closed (cn s) = false -> recv_seq s = 0.
 Proof. apply run_inv_rseq. intros H. simpl in H. discriminate. Qed.
 
@@ -223,7 +165,7 @@ Proof. induction l as [|t r IH]; intros c; simpl; [reflexivity|]. rewrite IH. un
 (* the peer's NEWKEYS can only be accepted after our own NEWKEYS went out (which fixes the session id) *)
 Definition pre_sid (c : conn) : Prop := sid c = false -> next_recv c = false /\ recv_enc c = false.
 
-Lemma dispatch_pre_sid fixed c seq t cls : pre_sid c -> pre_sid (dispatch fixed c seq t cls).
+Lemma dispatch_pre_sid fixed fixk c seq t cls : pre_sid c -> pre_sid (dispatch fixed fixk c seq t cls).
 Proof.
   unfold pre_sid. intros H.
   unfold_model; cbv zeta; crush_ifs; autorewrite with frame; cbn; autorewrite with frame; cbn;
@@ -271,9 +213,9 @@ Ltac zb :=
          | H : (_ =? _) = false |- _ => apply Z.eqb_neq in H
          end.
 
-Lemma dispatch_clear fixed c seq t cls :
+Lemma dispatch_clear fixed fixk c seq t cls :
   recv_enc c = false -> auth c = 0 -> can_recv_ext c = false -> pending c = [] ->
-  let c' := dispatch fixed c seq t cls in
+  let c' := dispatch fixed fixk c seq t cls in
   closed c' = true \/
   ((recv_enc c' = false -> auth c' = 0 /\ can_recv_ext c' = false /\ pending c' = []) /\
    (strict c = true -> allowed_clear t) /\
@@ -296,15 +238,15 @@ Proof.
 Qed.
 
 
-Lemma dispatch_strict_flip fixed c seq t cls :
-  strict c = false -> strict (dispatch fixed c seq t cls) = true -> sid c = false.
+Lemma dispatch_strict_flip fixed fixk c seq t cls :
+  strict c = false -> strict (dispatch fixed fixk c seq t cls) = true -> sid c = false.
 Proof.
   intros Hs. unfold_model; cbv zeta; crush_ifs; autorewrite with frame; cbn; autorewrite with frame; cbn;
     rewrite ?Hs; try (intros D; discriminate D); intros _; zb; assumption.
 Qed.
 
-Lemma dispatch_recv_enc_mono fixed c seq t cls :
-  recv_enc c = true -> recv_enc (dispatch fixed c seq t cls) = true.
+Lemma dispatch_recv_enc_mono fixed fixk c seq t cls :
+  recv_enc c = true -> recv_enc (dispatch fixed fixk c seq t cls) = true.
 Proof.
   intros Hr. unfold_model; cbv zeta; crush_ifs; autorewrite with frame; cbn; autorewrite with frame; cbn;
     rewrite ?Hr; reflexivity.
@@ -330,11 +272,11 @@ Qed.
 Lemma pre_sid_fatal c : pre_sid c -> pre_sid (fatal c).
 Proof. unfold pre_sid, fatal, emit. cbn. auto. Qed.
 
-Lemma inv_clear_recv fixed s t cls : inv_clear s -> inv_clear (recv fixed s t cls).
+Lemma inv_clear_recv fixed fixk s t cls : inv_clear s -> inv_clear (recv fixed fixk s t cls).
 Proof.
   intros [Isid Ipre Istr]. unfold recv.
   destruct (closed (cn s)) eqn:Ec; [split; [exact Isid | intros _ D; congruence | intros _ D; congruence]|].
-  set (c1 := dispatch fixed (cn s) (recv_seq s) t cls).
+  set (c1 := dispatch fixed fixk (cn s) (recv_seq s) t cls).
   assert (Hsid1 : pre_sid c1) by (apply dispatch_pre_sid; exact Isid).
   destruct (closed c1) eqn:Ec1.
   { split; cbn [with_conn cn recv_seq clear_acc]; [exact Hsid1 | intros _ D; congruence | intros _ D; congruence]. }
@@ -360,11 +302,11 @@ Proof.
     + rewrite Q2, Q6. intros Hs1 _.
       destruct (strict (cn s)) eqn:Es.
       * apply Istr; auto.
-      * pose proof (dispatch_strict_flip fixed (cn s) (recv_seq s) t cls Es Hs1) as Hf.
+      * pose proof (dispatch_strict_flip fixed fixk (cn s) (recv_seq s) t cls Es Hs1) as Hf.
         destruct (Isid Hf) as [_ Hx]. congruence.
   - (* still receiving in clear *)
     destruct (Ipre eq_refl eq_refl) as (Pa & Pe & Pp & Pq & Pb).
-    pose proof (dispatch_clear fixed (cn s) (recv_seq s) t cls Ere Pa Pe Pp) as Hd. cbv zeta in Hd.
+    pose proof (dispatch_clear fixed fixk (cn s) (recv_seq s) t cls Ere Pa Pe Pp) as Hd. cbv zeta in Hd.
     fold c1 in Hd. destruct Hd as [Hd|(D1 & D2 & D3 & D4)]; [congruence|].
     assert (Hnr : recv_seq s + 1 < M32 \/ recv_enc c2 = true).
     { apply andb_false_iff in Er. destruct Er as [Er|Er].
@@ -395,7 +337,7 @@ Qed.
 Lemma run_tasks_closed_mono : forall n c, closed c = true -> closed (run_tasks n c) = true.
 Proof. intros n c H. rewrite run_tasks_closed_id; assumption. Qed.
 
-Lemma inv_clear_step fixed s e : inv_clear s -> inv_clear (step fixed s e).
+Lemma inv_clear_step fixed fixk s e : inv_clear s -> inv_clear (step fixed fixk s e).
 Proof.
   intros I. destruct e as [|t cls|]; cbn [step].
   - destruct (closed (cn s)) eqn:Ec; [exact I|].
@@ -427,7 +369,7 @@ Proof.
   split; rewrite ?E1, ?E2, ?E4; assumption.
 Qed.
 
-Lemma run_inv_clear fixed : forall l s, inv_clear s -> inv_clear (run fixed s l).
+Lemma run_inv_clear fixed fixk : forall l s, inv_clear s -> inv_clear (run fixed fixk s l).
 Proof.
   induction l as [|e r IH]; intros s I; simpl; [exact I|]. apply IH.
   unfold step_booked. apply inv_clear_note, inv_clear_step, inv_clear_begin. exact I.
@@ -436,20 +378,20 @@ Qed.
 (* In every run: if strict KEX was negotiated and the connection is still up, the packets accepted while
    receiving in clear were the KEXINIT first and then only exchange-specific messages and NEWKEYS; and as
    long as the connection receives in clear their number equals the receive sequence number. *)
-Lemma strict_initial_all_runs fixed server l :
-  let s := run fixed (init server) l in
+Lemma strict_initial_all_runs fixed fixk server l :
+  let s := run fixed fixk (init server) l in
   closed (cn s) = false ->
   (strict (cn s) = true -> Forall allowed_clear (clear_acc s) /\ exists r, clear_acc s = 20 :: r) /\
   (recv_enc (cn s) = false -> recv_seq s = Z.of_nat (List.length (clear_acc s))).
 Proof.
-  cbv zeta. intros Hc. destruct (run_inv_clear fixed l _ (inv_clear_init server)) as [A B C]. split.
+  cbv zeta. intros Hc. destruct (run_inv_clear fixed fixk l _ (inv_clear_init server)) as [A B C]. split.
   - intros Hs. apply C; assumption.
   - intros Hr. destruct (B Hr Hc) as (_ & _ & _ & Q & _). exact Q.
 Qed.
 
 (* ---- the phase gate, in every state ------------------------------------------------------------------------ *)
-Lemma gate_prekex_fatal fixed c seq t cls :
-  recv_enc c = false -> auth c = 0 -> 49 < t -> closed (dispatch fixed c seq t cls) = true.
+Lemma gate_prekex_fatal fixed fixk c seq t cls :
+  recv_enc c = false -> auth c = 0 -> 49 < t -> closed (dispatch fixed fixk c seq t cls) = true.
 Proof.
   intros Hr Ha Ht. unfold dispatch. rewrite Hr, Ha. cbn [negb andb Z.eqb].
   destruct ((30 <=? t) && (t <=? 49)) eqn:E1; [zb; lia|].
@@ -458,8 +400,8 @@ Proof.
   assert (E3 : (49 <? t) = true) by (apply Z.ltb_lt; exact Ht). rewrite E3. reflexivity.
 Qed.
 
-Lemma gate_preauth_fatal fixed c seq t cls :
-  auth_complete c = false -> 79 < t -> closed (dispatch fixed c seq t cls) = true.
+Lemma gate_preauth_fatal fixed fixk c seq t cls :
+  auth_complete c = false -> 79 < t -> closed (dispatch fixed fixk c seq t cls) = true.
 Proof.
   intros Hr Ht. unfold dispatch. rewrite Hr. cbn [negb andb Z.eqb].
   destruct ((30 <=? t) && (t <=? 49)) eqn:E1; [zb; lia|].
@@ -470,10 +412,10 @@ Proof.
 Qed.
 
 (* a message only the other role may send ends the connection, in every state *)
-Lemma role_foreign_fatal fixed c seq t cls :
+Lemma role_foreign_fatal fixed fixk c seq t cls :
   (srv c = false /\ (t = 5 \/ t = 30 \/ t = 50)) \/
   (srv c = true /\ (t = 6 \/ t = 31 \/ t = 51 \/ t = 52 \/ t = 53)) ->
-  closed (dispatch fixed c seq t cls) = true.
+  closed (dispatch fixed fixk c seq t cls) = true.
 Proof.
   intros [[Hs Ht]|[Hs Ht]]; repeat (destruct Ht as [Ht|Ht]); subst t;
     unfold_model; cbv zeta; rewrite ?Hs; cbn; crush_ifs; autorewrite with frame; cbn; rewrite ?Hs in *; cbn in *;
@@ -487,18 +429,18 @@ Qed.
 Definition unsolicited_witness : list event :=
   [EvVersion; EvRecv 20 1; EvSettle; EvRecv 31 0; EvSettle; EvRecv 21 0; EvSettle; EvRecv 6 0; EvRecv 52 0; EvSettle].
 
-Lemma success_unsolicited_cur :
-  let s := run false (init false) unsolicited_witness in
+Lemma success_unsolicited_cur fixk :
+  let s := run false fixk (init false) unsolicited_witness in
   auth_complete (cn s) = true /\ closed (cn s) = false /\ unsolicited (cn s) = true.
-Proof. vm_compute. auto. Qed.
+Proof. destruct fixk; vm_compute; auto. Qed.
 
 (* the same run against the repaired gate ends the connection instead *)
-Lemma success_unsolicited_fixed_witness :
-  closed (cn (run true (init false) unsolicited_witness)) = true.
-Proof. vm_compute. reflexivity. Qed.
+Lemma success_unsolicited_fixed_witness fixk :
+  closed (cn (run true fixk (init false) unsolicited_witness)) = true.
+Proof. destruct fixk; vm_compute; reflexivity. Qed.
 
-Lemma dispatch_unsolicited_fixed c seq t cls :
-  unsolicited c = false -> unsolicited (dispatch true c seq t cls) = false.
+Lemma dispatch_unsolicited_fixed fixk c seq t cls :
+  unsolicited c = false -> unsolicited (dispatch true fixk c seq t cls) = false.
 Proof.
   intros Hu. unfold_model; cbv zeta; crush_ifs; autorewrite with frame; cbn; autorewrite with frame; cbn;
     rewrite ?Hu; try reflexivity.
@@ -514,23 +456,23 @@ Proof.
   rewrite IH, run_task_unsolicited. reflexivity.
 Qed.
 
-Lemma step_unsolicited_fixed s e :
-  unsolicited (cn s) = false -> unsolicited (cn (step true s e)) = false.
+Lemma step_unsolicited_fixed fixk s e :
+  unsolicited (cn s) = false -> unsolicited (cn (step true fixk s e)) = false.
 Proof.
   intros H. destruct e as [|t cls|]; cbn [step].
   - destruct (closed (cn s)); [exact H|]. cbn. exact H.
   - unfold recv. destruct (closed (cn s)); [exact H|].
-    pose proof (dispatch_unsolicited_fixed (cn s) (recv_seq s) t cls H) as H1.
-    destruct (closed (dispatch true (cn s) (recv_seq s) t cls)); [exact H1|].
+    pose proof (dispatch_unsolicited_fixed fixk (cn s) (recv_seq s) t cls H) as H1.
+    destruct (closed (dispatch true fixk (cn s) (recv_seq s) t cls)); [exact H1|].
     unfold finish_recv. destruct (79 <? t); crush_ifs; cbn; exact H1.
   - cbn [with_conn cn]. rewrite run_tasks_unsolicited. exact H.
 Qed.
 
-Lemma success_outstanding_fixed_all_runs : forall l s,
-  unsolicited (cn s) = false -> unsolicited (cn (run true s l)) = false.
+Lemma success_outstanding_fixed_all_runs fixk : forall l s,
+  unsolicited (cn s) = false -> unsolicited (cn (run true fixk s l)) = false.
 Proof.
   induction l as [|e r IH]; intros s H; simpl; [exact H|]. apply IH. unfold step_booked.
-  destruct (note_all_frame (map fst (olog (cn (step true (begin_step s) e)))) (step true (begin_step s) e)) as (A & _).
+  destruct (note_all_frame (map fst (olog (cn (step true fixk (begin_step s) e)))) (step true fixk (begin_step s) e)) as (A & _).
   rewrite A. apply step_unsolicited_fixed. cbn. exact H.
 Qed.
 
@@ -538,18 +480,19 @@ Qed.
 Definition post_ok (u : Z) (c : conn) : Prop :=
   srv c = true /\ auth_complete c = true /\ pending c = [] /\ auth c = 0 /\ authed c = u.
 
-Lemma dispatch_post_ok fixed u c seq t cls :
-  post_ok u c -> closed (dispatch fixed c seq t cls) = true \/ post_ok u (dispatch fixed c seq t cls).
+Lemma dispatch_post_ok fixed fixk u c seq t cls :
+  post_ok u c -> closed (dispatch fixed fixk c seq t cls) = true \/ post_ok u (dispatch fixed fixk c seq t cls).
 Proof.
   intros (H1 & H2 & H3 & H4 & H5). unfold post_ok.
   unfold_model; cbv zeta; rewrite ?H1, ?H2, ?H3, ?H4; cbn; crush_ifs; autorewrite with frame; cbn;
     autorewrite with frame; cbn; rewrite ?H1, ?H2, ?H3, ?H4;
-    try (left; reflexivity); right; repeat split; try assumption; try reflexivity; try discriminate.
+    try (left; reflexivity); right; repeat split; try assumption; try reflexivity; try discriminate;
+    try (rewrite H1 in *; cbn in *; discriminate).
 Qed.
 
 Definition post_inv (u : Z) (s : st) : Prop := closed (cn s) = true \/ post_ok u (cn s).
 
-Lemma step_post_inv fixed u s e : post_inv u s -> post_inv u (step fixed s e).
+Lemma step_post_inv fixed fixk u s e : post_inv u s -> post_inv u (step fixed fixk s e).
 Proof.
   intros [Hc|Hp]; destruct e as [|t cls|]; cbn [step].
   - rewrite Hc. left. exact Hc.
@@ -558,19 +501,19 @@ Proof.
   - destruct (closed (cn s)) eqn:Ec; [left; exact Ec|]. right. destruct Hp as (H1 & H2 & H3 & H4 & H5).
     unfold post_ok. cbn. auto.
   - unfold recv. destruct (closed (cn s)) eqn:Ec; [left; exact Ec|].
-    destruct (dispatch_post_ok fixed u (cn s) (recv_seq s) t cls Hp) as [D|D].
+    destruct (dispatch_post_ok fixed fixk u (cn s) (recv_seq s) t cls Hp) as [D|D].
     + rewrite D. left. exact D.
-    + destruct (closed (dispatch fixed (cn s) (recv_seq s) t cls)) eqn:Ec1; [left; exact Ec1|].
+    + destruct (closed (dispatch fixed fixk (cn s) (recv_seq s) t cls)) eqn:Ec1; [left; exact Ec1|].
       unfold finish_recv. crush_ifs; cbn; try (left; reflexivity); right;
         destruct D as (H1 & H2 & H3 & H4 & H5); unfold post_ok; cbn; auto.
   - right. cbn [with_conn cn]. destruct Hp as (H1 & H2 & H3 & H4 & H5). rewrite run_tasks_nopending by exact H3.
     unfold post_ok. auto.
 Qed.
 
-Lemma run_post_inv fixed u : forall l s, post_inv u s -> post_inv u (run fixed s l).
+Lemma run_post_inv fixed fixk u : forall l s, post_inv u s -> post_inv u (run fixed fixk s l).
 Proof.
   induction l as [|e r IH]; intros s H; simpl; [exact H|]. apply IH. unfold step_booked.
-  destruct (note_all_frame (map fst (olog (cn (step fixed (begin_step s) e)))) (step fixed (begin_step s) e)) as (A & _).
+  destruct (note_all_frame (map fst (olog (cn (step fixed fixk (begin_step s) e)))) (step fixed fixk (begin_step s) e)) as (A & _).
   unfold post_inv. rewrite A. apply step_post_inv.
   destruct H as [H|(H1 & H2 & H3 & H4 & H5)]; [left; exact H|right; unfold post_ok; cbn; auto].
 Qed.
@@ -580,5 +523,26 @@ Definition server_login : list event :=
   [EvVersion; EvRecv 20 1; EvSettle; EvRecv 30 0; EvSettle; EvRecv 21 0; EvSettle; EvRecv 5 0; EvSettle;
    EvRecv 50 100; EvSettle; EvRecv 50 111; EvSettle].
 
-Lemma server_login_post_ok fixed : post_ok 1 (cn (run fixed (init true) server_login)).
-Proof. destruct fixed; vm_compute; auto. Qed.
+Lemma server_login_post_ok fixed fixk : post_ok 1 (cn (run fixed fixk (init true) server_login)).
+Proof. destruct fixed, fixk; vm_compute; auto. Qed.
+
+(* ---- KEXINIT between our NEWKEYS and the peer's, strict KEX not negotiated ---------------------------------- *)
+(* the code as it is starts a second key exchange although the first one has not completed *)
+Definition early_kexinit_witness : list event :=
+  [EvVersion; EvRecv 20 0; EvSettle; EvRecv 31 0; EvSettle].
+
+Lemma early_kexinit_cur fixed :
+  let s := run fixed false (init false) early_kexinit_witness in
+  (* our NEWKEYS is out, the peer's is still awaited, nothing is received encrypted yet *)
+  next_recv (cn s) = true /\ recv_enc (cn s) = false /\ kex (cn s) = false /\ closed (cn s) = false /\
+  let s' := step_booked fixed false s (EvRecv 20 0) in
+  closed (cn s') = false /\ kex (cn s') = true /\ map fst (olog (cn s')) = [20; 30].
+Proof. destruct fixed; vm_compute; repeat split; reflexivity. Qed.
+
+(* with the repair the same KEXINIT ends the connection; in EVERY state in which the peer's NEWKEYS is awaited *)
+Lemma early_kexinit_fixed fixed c seq cls :
+  next_recv c = true -> closed (dispatch fixed true c seq 20 cls) = true.
+Proof.
+  intros Hn. unfold dispatch. cbn [Z.leb Z.compare andb Z.ltb Z.eqb]. rewrite !andb_false_r.
+  cbn. unfold on_connmsg. cbn. unfold on_kexinit. rewrite Hn. rewrite orb_true_r. reflexivity.
+Qed.
